@@ -1344,8 +1344,8 @@ def work_C12(run, rng, budget):
         run.sample({"mol": mol_repr(m), "sigma": sigma})
     return "random molecules with a unique tag, charge, coordinates on every atom and bond types on every / some / no bond; the real canonical graph " \
            "is compared with the argument under the recovered bijection (all attributes, all bond records), the argument is " \
-           "snapshotted before/after, aliasing of attribute dictionaries is checked, and canonicalize/serialize are repeated " \
-           "1-4 times on the same objects; non-trivial = >= 2 atoms"
+           "snapshotted before/after, aliasing of attribute dictionaries is checked, canonicalize is repeated and serialize runs " \
+           "2-4 times on the same objects; non-trivial = >= 2 atoms"
 
 
 # =====================================================================================
@@ -1483,7 +1483,7 @@ def work_C15(run, rng, budget):
         h, err = safe(graph_from_tucan, s)
         if err is not None:
             run.fail("parser-raises-on-pipeline-output", f"{m.family}: {type(err).__name__} on {s[:60]!r}", {"mol": mol_repr(m), "string": s})
-    return "paths, cycles, ladders, combs, peptide backbones up to thousands of atoms, 5000 isolated atoms, 2000 components, K40, " \
+    return "paths, cycles, ladders, combs, peptide backbones up to thousands of atoms, 3000 isolated atoms, 1000 two-atom components, K40, " \
            "stars with thousands of leaves, deep binary trees, square grids, K30,30, hundreds of identical rings " \
            "through the real pipeline and parser; model/real round counts compared on the same families at <= 61 atoms; every " \
            "family/size is a distinct non-trivial case"
